@@ -368,6 +368,8 @@ public:
 	bool operator==(const splinetable& other) const{
 		if (ndim != other.ndim)
 			return false;
+		if (ndim == 0) //two empty tables; there are no arrays to compare
+			return true;
 		if (!std::equal(order,order+ndim,other.order))
 			return false;
 		if (!std::equal(naxes,naxes+ndim,other.naxes))
